@@ -204,9 +204,43 @@ def kf_long_import_chain(w: Dict[str, Any]) -> bool:
     return cs is None or (cs.get("expected") == x["new"] and cs.get("got") in (x["old"], None, ""))
 
 
+def kf_import_then_rebound(w: Dict[str, Any]) -> bool:
+    """Known finding: some module imports the object, lists the name in __all__ and later re-binds the name itself (not a re-exporter
+    for Python, one for pydoctor): the object is dragged into that module and superseded there.  Matches only when the object
+    that is not where the property wants it is imported-listed-and-rebound by a module of the project."""
+    o = w.get("origin", {})
+    d = w.get("detail", {}).get("MovedOnce")
+    if "project" not in o or not d:
+        return False
+    proj = {**o["project"], "family": "", "meta": {}}
+    x = next((e for e in P.expected_reexports(proj) + P.expected_reexports(proj, multi=True) if e["new"] == d["expected"]), None)
+    if x is None:
+        return False
+    idx = P.module_index_by_qname(proj)
+    for ri, R in enumerate(proj["mods"], 1):
+        if not R["hasAll"] or ri == x["rex"]:
+            continue
+        depth, bound = 0, set()
+        for op in R["ops"]:
+            depth += 1 if op["k"] == "class" else -1 if op["k"] == "endclass" else 0
+            if depth == 0 and op["k"] == "from":
+                ti = idx.get(P.resolve_import_target(proj, ri, op["lvl"], op["m"]) or "")
+                ch = P.follow_import_chain(proj, ti, op["orig"]) if ti else None
+                if ch and [ch[0], P.top_level_defs(proj, ch[0])[ch[1]][1]] == x["site"] and op["as"] in R["all"]:
+                    bound.add(op["as"])
+            elif depth == 0 and op["k"] == "star":
+                ti = idx.get(P.resolve_import_target(proj, ri, op["lvl"], op["m"]) or "")
+                if ti == x["origin"]:
+                    bound |= {n for n, (k, pc) in P.top_level_defs(proj, ti).items() if [ti, pc] == x["site"] and n in R["all"]}
+            elif ((depth == 1 and op["k"] == "class") or (depth == 0 and op["k"] in ("def", "var") and not op.get("ann"))) and op["n"] in bound:
+                return True
+    return False
+
+
 def run(ctx: Ctx) -> int:
     rng = random.Random(ctx.seed)
     ctx.register_matcher("defining-module-shadowed-by-reexported-namesake", kf_module_shadowed)
+    ctx.register_matcher("import-listed-in-all-then-rebound", kf_import_then_rebound)
     ctx.register_matcher("reexport-through-three-intermediate-imports", kf_long_import_chain)
     projs = c07_projects(ctx.quick, rng)
     results = procrun.explore(ctx, projs, record_states=False)
